@@ -1,6 +1,7 @@
 package driver
 
 import (
+	"runtime"
 	"context"
 	"encoding/hex"
 	"errors"
@@ -532,6 +533,26 @@ func (w *world) runStream(kind string, ss grpc.ServerStream) error {
 			he := base("HSetTrl")
 			he.Md, he.Res = mdCanon(mdOf(op.Md)), "ok"
 			tr.emit(he)
+		case "parhdr":
+			// SendHeader in a goroutine of its own, concurrently with a Send of the handler goroutine (the API permits
+			// header calls concurrent with sends): whichever goes first, headers a successful SendHeader reports as
+			// sent are on the first envelope
+			doneCh := make(chan struct{})
+			go func() {
+				defer close(doneCh)
+				he := base("HSendHdr")
+				he.Md = mdCanon(mdOf(op.Md))
+				tr.emit(he)
+				err := ss.SendHeader(w.sharedMD(op.Md))
+				hr := base("HSendHdrRet")
+				hr.Res = errRes(err)
+				tr.emit(hr)
+			}()
+			if op.N > 0 {
+				runtime.Gosched()
+			}
+			send(payBytes(op.Pay))
+			<-doneCh
 		case "ctxwait":
 			<-ctx.Done()
 			tr.emit(base("HCtxDone"))
